@@ -147,11 +147,11 @@ func (c *Ctx) globalFacts(g *ssa.Global, ref string) {
 			k := funcKey(callee)
 			if k == "regexp.MustCompile" {
 				id := 70000 + w.globalIDs["glob$"+mangle(g.Pkg.Pkg.Path())+"."+g.Name()]
-				add(eq(cell(), fmt.Sprint(id)))
+				add(eq(cell(), fmt.Sprintf("(* %d %s)", id, refStride)))
 			}
 			if k == "errors.New" || k == "fmt.Errorf" {
 				id := 50000 + w.globalIDs["glob$"+mangle(g.Pkg.Pkg.Path())+"."+g.Name()]
-				add(eq(cell(), fmt.Sprintf("(mk-iface %s %d)", c.typeID(types.NewPointer(types.Typ[types.Invalid])), id)))
+				add(eq(cell(), fmt.Sprintf("(mk-iface %s (* %d %s))", c.typeID(types.NewPointer(types.Typ[types.Invalid])), id, refStride)))
 				c.W.errGlobals[g.Pkg.Pkg.Path()+"."+g.Name()] = id
 			}
 		}
@@ -215,12 +215,13 @@ func (c *Ctx) sliceLitFacts(g *ssa.Global, ref string, t types.Type, n int64, el
 	h, srt := c.cellHeap(t)
 	cellv := "(select " + c.heapInit(h, srt) + " " + ref + ")"
 	base := 60000 + c.W.globalIDs["glob$"+mangle(g.Pkg.Pkg.Path())+"."+g.Name()]
-	add(eq(cellv, c.mkSlice(fmt.Sprint(base), c.idxLit(0), c.idxLit(n), c.idxLit(n))))
+	baseT := fmt.Sprintf("(* %d %s)", base, refStride)
+	add(eq(cellv, c.mkSlice(baseT, c.idxLit(0), c.idxLit(n), c.idxLit(n))))
 	if elems == nil {
 		return
 	}
 	mh, msrt := c.memHeap(elem)
-	arr := "(select " + c.heapInit(mh, msrt) + " " + fmt.Sprint(base) + ")"
+	arr := "(select " + c.heapInit(mh, msrt) + " " + baseT + ")"
 	for i, e := range elems {
 		add(eq("(select "+arr+" "+c.idxLit(int64(i))+")", c.numLit(e, elem)))
 	}
